@@ -36,6 +36,12 @@ fn case(g: &mut Gen, max_len: u64) -> Outcome {
                 }
                 1 => {
                     let (op, obs) = s.opaque(g);
+                    if let Err(f) = opaque_expectation(&op, &obs) {
+                        return Outcome::Fail(f);
+                    }
+                    if matches!(op, Opaque::ProtectedWithdraw { .. }) {
+                        g.label("has_protected_withdraw");
+                    }
                     if obs.run.is_success() {
                         opaque_ok += 1;
                     }
